@@ -119,6 +119,12 @@ where
 
     // Insert the new entry into the hash map.
     self.shard_guard.insert(self.key, new_cache_entry);
+    // account for the entry before the shard lock is released (see Cache::insert)
+    self
+      .shared
+      .metrics
+      .current_cost
+      .fetch_add(cost, std::sync::atomic::Ordering::Relaxed);
 
     // We must drop the guard for the current shard before any other operations
     // that might try to lock other shards, although in this new model, we don't.
@@ -141,11 +147,6 @@ where
       .metrics
       .keys_admitted
       .fetch_add(1, std::sync::atomic::Ordering::Relaxed);
-    self
-      .shared
-      .metrics
-      .current_cost
-      .fetch_add(cost, std::sync::atomic::Ordering::Relaxed);
     self
       .shared
       .metrics
